@@ -213,6 +213,16 @@ func (h H) applyInOrder(rule string) {
 			continue
 		}
 		h.gate(rule+" index-contiguous", construct, s.Instr, core.MkAtom(e+".index", "==", "(stateMachine.index + 1)"))
+		// index and term advance together, from the same entry: a snapshot is
+		// labelled (fsm.index, fsm.term), and that term becomes prevLogTerm /
+		// lastLogTerm wherever the log starts at the snapshot
+		paired := false
+		for _, in := range s.Instr.Block().Instrs {
+			if st, isSt := in.(*ssa.Store); isSt && fi.Sym(st.Addr).String() == "stateMachine.term" && fi.Sym(st.Val).String() == e+".term" {
+				paired = true
+			}
+		}
+		h.C.Check(rule+" term-with-index", construct, paired, h.pos(s.Instr), "the applied index advances to "+e+".index without the applied term becoming "+e+".term in the same step: snapshots would be labelled with a stale term")
 	}
 	// entries read from the log are read at fsm.index+1 from the view in the request
 	get := h.fn("log:(*Log).Get")
